@@ -511,6 +511,7 @@ printf("-- %d %d %d\n", operands[n].type, operands[n].value, operands[n].offset)
             add_bin8(asm_context, table_z80[n].opcode, IS_OPCODE);
             return 1;
           }
+          break;
         }
         case OP_NONE16:
         {
@@ -520,6 +521,7 @@ printf("-- %d %d %d\n", operands[n].type, operands[n].value, operands[n].offset)
             add_bin8(asm_context, table_z80[n].opcode & 0xff, IS_OPCODE);
             return 2;
           }
+          break;
         }
         case OP_NONE24:
         {
@@ -530,6 +532,7 @@ printf("-- %d %d %d\n", operands[n].type, operands[n].value, operands[n].offset)
             add_bin8(asm_context, 0, IS_OPCODE);
             return 3;
           }
+          break;
         }
         case OP_A_REG8:
         {
